@@ -238,4 +238,13 @@ def run(pid, tier, replay=None):
                          "the SHA-256d interpretation of the shape TLC computed; plus %d random structural edits judged by TLC; non-trivial = the edit changes the list"
                          % (maxshape, nlists))
     chk.assumptions.append("collision resistance of SHA-256 and leaf values never equal to an inner node (ideal hash in the specification)")
+    # ---- the list a block holds after it went through the store and a restart is the list its header commits to (crash at every SQL statement
+    #      of a flush, multi-block flushes, re-delivery; StoreCrash.tla, TraceStore)
+    from checks import store as storechk
+    cfg_s = sk.Cfg(**storechk.MODEL_CFG)
+    sk.apply_cfg(cfg_s)
+    rc_ = storechk.crash_stage(chk, quick, rng, pid, cfg_s, sk.Keys(3))
+    sk.restore_cfg()
+    if rc_:
+        return rc_
     return chk.finish()
